@@ -1,5 +1,7 @@
-// Unit c09_names: the symbol table's context discipline (src/symbols.rs, wrappers verbatim; the per-context
-// name lists are opaque) and the compiler arms that turn names into slots (src/compiler.rs).
+// Unit c09_names: the symbol table of src/symbols.rs. The table-level functions and the scope push / pop are verified
+// on their real bodies; the two per-context functions with iterator closures (Context::define / resolve) carry
+// contracts over the VIEW of the real struct (stack of scopes of names) that Kani obligations check on the real
+// code, and the lexical-scoping statements of the property are lemmas over those contracts (all sizes).
 use vstd::prelude::*;
 verus! {
 //@INCLUDE prelude_object.rs
@@ -8,46 +10,149 @@ verus! {
 //@TYPE file=symbols.rs name=Scope attrs="#[derive(PartialEq, Eq, Structural, Copy, Clone)]"
 //@TYPE file=symbols.rs name=Symbol
 
-/// One context (global, or one function being compiled): opaque here. NOT DECIDED by any obligation: its
-/// own define/resolve (Vec<Vec<String>> with iterator adapters: no Verus model; > 500 s in CBMC even for a
-/// concrete 4-step scenario). The spec functions below only NAME what those two methods answer.
-#[verifier::external_body]
-pub struct Context { _p: usize }
-pub uninterp spec fn ctx_resolve(c: Context, name: Seq<char>) -> Option<Symbol>;
-pub uninterp spec fn ctx_after_define(c: Context, name: Seq<char>) -> Context;
-pub uninterp spec fn ctx_define_symbol(c: Context, name: Seq<char>) -> Symbol;
-pub uninterp spec fn ctx_max_size(c: Context) -> usize;
-pub uninterp spec fn ctx_new(scope: Scope) -> Context;
-pub uninterp spec fn ctx_enter(c: Context) -> Context;
-pub uninterp spec fn ctx_leave(c: Context) -> Context;
-pub uninterp spec fn ctx_depth(c: Context) -> nat;
+/// One context (global, or one function being compiled): the REAL struct. Its VIEW is the stack of open block
+/// scopes, each the list of names declared in it, in declaration order.
+//@TYPE file=symbols.rs name=Context
+pub type Scopes = Seq<Seq<Seq<char>>>;
+pub open spec fn ctx_view(c: Context) -> Scopes {
+    Seq::new(c.symbols@.len(), |i: int| Seq::new(c.symbols@[i]@.len(), |j: int| c.symbols@[i]@[j]@))
+}
+/// number of names in all open scopes (what Context::total_len computes)
+pub open spec fn flat_len(v: Scopes) -> nat decreases v.len() {
+    if v.len() == 0 { 0 } else { flat_len(v.drop_last()) + v.last().len() }
+}
+/// position of the LAST declaration of `name` in one scope (what rposition answers)
+pub open spec fn last_pos(s: Seq<Seq<char>>, name: Seq<char>) -> Option<int> decreases s.len() {
+    if s.len() == 0 { None } else if s.last() == name { Some(s.len() - 1) } else { last_pos(s.drop_last(), name) }
+}
+/// the slot a name means: innermost scope that declares it, last declaration there, counted across the open scopes
+pub open spec fn slot_of(v: Scopes, name: Seq<char>) -> Option<int> decreases v.len() {
+    if v.len() == 0 { None } else {
+        match last_pos(v.last(), name) {
+            Some(j) => Some(flat_len(v.drop_last()) + j),
+            None => slot_of(v.drop_last(), name),
+        }
+    }
+}
+pub open spec fn declare(v: Scopes, name: Seq<char>) -> Scopes { v.drop_last().push(v.last().push(name)) }
+
+pub open spec fn ctx_resolve(c: Context, name: Seq<char>) -> Option<Symbol> {
+    match slot_of(ctx_view(c), name) { Some(i) => Some(Symbol { index: i as u16, scope: c.scope }), None => None }
+}
+pub open spec fn ctx_after_define(c: Context, name: Seq<char>, post: Context) -> bool {
+    ctx_view(post) == declare(ctx_view(c), name) && post.scope == c.scope && post.max_size == c.max_size + 1
+}
+pub open spec fn ctx_define_symbol(c: Context, name: Seq<char>) -> Symbol { Symbol { index: flat_len(ctx_view(c)) as u16, scope: c.scope } }
+pub open spec fn ctx_max_size(c: Context) -> usize { c.max_size }
+pub open spec fn ctx_is_new(c: Context, scope: Scope) -> bool { c.scope == scope && c.max_size == 0 && ctx_view(c).len() == 1 && ctx_view(c)[0].len() == 0 }
+
 impl Context {
+    /// a fresh context has exactly one (empty) open scope
+    fn new(scope: Scope) -> (c: Self) ensures ctx_is_new(c, scope)
+    {
+//@BODY file=symbols.rs fn=new impl=Context sig="fn new(scope: Scope) -> Self" rules="R4"
+    }
+    fn max_size(&self) -> (n: usize) ensures n == ctx_max_size(*self)
+    {
+//@BODY file=symbols.rs fn=max_size impl=Context sig="fn max_size(&self) -> usize" rules="R4"
+    }
+    // ASSUMED here (iterator fold / rposition / closures have no Verus model). PROVED-BY on the real code:
+    //  O05.sym c05_define_total (Kani, every symbol count, modular over total_len): slot == count, Err leaves the context alone;
+    //  O09.len c09_total_len (bounded): total_len == flat_len
     #[verifier::external_body]
-    fn new(scope: Scope) -> (c: Self) ensures c == ctx_new(scope) { unimplemented!() }
-    #[verifier::external_body]
-    fn max_size(&self) -> (n: usize) ensures n == ctx_max_size(*self) { unimplemented!() }
-    #[verifier::external_body]
-    // PROVED-BY (totality and the Err case): O05.sym c05_define_total (Kani, real Context::define)
     fn define(&mut self, name: &str) -> (r: Result<Symbol, Error>)
-        ensures r is Ok ==> *final(self) == ctx_after_define(*old(self), name@) && r->Ok_0 == ctx_define_symbol(*old(self), name@),
+        requires ctx_view(*old(self)).len() >= 1
+        ensures r is Ok ==> ctx_after_define(*old(self), name@, *final(self)) && r->Ok_0 == ctx_define_symbol(*old(self), name@) && flat_len(ctx_view(*old(self))) <= 0xFFFF,
                 r is Err ==> *final(self) == *old(self)
     { unimplemented!() }
+    //  O09.res c09_resolve_two_scopes (Kani, bounded: two scopes of 0..=2 names): the answer is slot_of of the view
     #[verifier::external_body]
     fn resolve(&self, name: &str) -> (r: Option<Symbol>) ensures r == ctx_resolve(*self, name@) { unimplemented!() }
+}
+
+// ---- what the slot function means (lemmas over the contracts above; all sizes) -----------------------------
+/// a slot is always one of the context's slots
+pub proof fn lemma_slot_in_range(v: Scopes, name: Seq<char>)
+    ensures slot_of(v, name) matches Some(i) ==> 0 <= i < flat_len(v)
+    decreases v.len()
+{
+    if v.len() > 0 {
+        lemma_last_pos_range(v.last(), name);
+        lemma_slot_in_range(v.drop_last(), name);
+    }
+}
+pub proof fn lemma_last_pos_range(s: Seq<Seq<char>>, name: Seq<char>)
+    ensures last_pos(s, name) matches Some(j) ==> 0 <= j < s.len() && s[j] == name && forall|k: int| j < k < s.len() ==> s[k] != name,
+            last_pos(s, name) is None ==> forall|k: int| 0 <= k < s.len() ==> s[k] != name,
+    decreases s.len()
+{
+    if s.len() > 0 {
+        let t = s.drop_last();
+        lemma_last_pos_range(t, name);
+        assert forall|k: int| 0 <= k < t.len() implies t[k] == s[k] by {}
+        if s.last() != name {
+            if last_pos(t, name) is Some {
+                let j = last_pos(t, name)->Some_0;
+                assert forall|k: int| j < k < s.len() implies s[k] != name by { if k < t.len() { assert(t[k] != name); } }
+            } else {
+                assert forall|k: int| 0 <= k < s.len() implies s[k] != name by { if k < t.len() { assert(t[k] != name); } }
+            }
+        }
+    }
+}
+/// O09.L1  an inner block may declare the same name without disturbing the outer variable: inside a block a name
+/// means the block's own (last) declaration if it has one - a FRESH slot beyond every outer slot - and otherwise
+/// exactly what it meant outside
+pub proof fn lemma_inner_scope(v: Scopes, inner: Seq<Seq<char>>, name: Seq<char>)
+    ensures slot_of(v.push(inner), name) == (match last_pos(inner, name) { Some(j) => Some(flat_len(v) + j), None => slot_of(v, name) }),
+            last_pos(inner, name) is Some ==> slot_of(v.push(inner), name)->Some_0 >= flat_len(v),
+{
+    assert(v.push(inner).drop_last() =~= v);
+    assert(v.push(inner).last() == inner);
+    lemma_last_pos_range(inner, name);
+}
+/// O09.L2  a later declaration of the same name in the same block takes over: right after declaring `name` it
+/// means the NEW slot (the number of names declared before it in the context)
+pub proof fn lemma_declare_takes_over(v: Scopes, name: Seq<char>)
+    requires v.len() >= 1
+    ensures slot_of(declare(v, name), name) == Some(flat_len(v) as int), flat_len(declare(v, name)) == flat_len(v) + 1
+{
+    let w = declare(v, name);
+    assert(w.drop_last() =~= v.drop_last());
+    assert(w.last() == v.last().push(name));
+    assert(v.last().push(name).last() == name);
+}
+/// O09.L3  declaring a name does not change what any OTHER name means
+pub proof fn lemma_declare_frames_others(v: Scopes, name: Seq<char>, other: Seq<char>)
+    requires v.len() >= 1, other != name
+    ensures slot_of(declare(v, name), other) == slot_of(v, other)
+{
+    let w = declare(v, name);
+    assert(w.drop_last() =~= v.drop_last());
+    assert(w.last() == v.last().push(name));
+    assert(v.last().push(name).drop_last() =~= v.last());
+}
+/// O09.L4  a variable ceases to exist at the end of its block: opening a scope, declaring any names in it and
+/// closing it leaves every name meaning exactly what it meant before (the view is the same stack of scopes)
+pub proof fn lemma_block_roundtrip(v: Scopes, inner: Seq<Seq<char>>, name: Seq<char>)
+    ensures slot_of(v.push(inner).drop_last(), name) == slot_of(v, name)
+{
+    assert(v.push(inner).drop_last() =~= v);
 }
 
 //@TYPE file=symbols.rs name=SymbolTable
 
 impl SymbolTable {
     pub fn new() -> (t: Self)
-        ensures t.contexts@ == seq![ctx_new(Scope::Global)]
+        ensures t.contexts@.len() == 1, ctx_is_new(t.contexts@[0], Scope::Global)
     {
 //@BODY file=symbols.rs fn=new impl=SymbolTable sig="pub fn new() -> Self" rules="R4"
     }
 
     /// a function body gets a fresh LOCAL context on top; everything below is untouched
     pub fn new_context(&mut self)
-        ensures final(self).contexts@ == old(self).contexts@.push(ctx_new(Scope::Local))
+        ensures final(self).contexts@.len() == old(self).contexts@.len() + 1, final(self).contexts@.drop_last() =~= old(self).contexts@,
+                ctx_is_new(final(self).contexts@.last(), Scope::Local)
     {
 //@BODY file=symbols.rs fn=new_context impl=SymbolTable sig="pub fn new_context(&mut self)" rules="R4"
     }
@@ -94,15 +199,92 @@ impl SymbolTable {
 
     /// a declaration goes into the current context only
     pub fn define(&mut self, name: &str) -> (r: Result<Symbol, Error>)
-        requires old(self).contexts@.len() >= 1
+        requires old(self).contexts@.len() >= 1, ctx_view(old(self).contexts@.last()).len() >= 1
         ensures
             //@VACUITY
-            r is Ok ==> final(self).contexts@ == old(self).contexts@.drop_last().push(ctx_after_define(old(self).contexts@.last(), name@))
+            // every other context is untouched; the current one gets the name in its innermost scope, and the symbol
+            // is the next free slot of the current context
+            final(self).contexts@.len() == old(self).contexts@.len(),
+            final(self).contexts@.drop_last() =~= old(self).contexts@.drop_last(),
+            r is Ok ==> ctx_after_define(old(self).contexts@.last(), name@, final(self).contexts@.last())
                 && r->Ok_0 == ctx_define_symbol(old(self).contexts@.last(), name@),
             r is Err ==> final(self).contexts@ =~= old(self).contexts@,
     {
 //@BODY file=symbols.rs fn=define impl=SymbolTable sig="pub fn define(&mut self, name: &str) -> Result<Symbol, Error>" rules="R4"
     }
+
+    /// O09.4s  a block opens ONE empty scope on top of the current context's scopes; nothing else changes
+    pub fn enter_scope(&mut self)
+        requires old(self).contexts@.len() >= 1
+        ensures
+            //@VACUITY
+            final(self).contexts@.len() == old(self).contexts@.len(),
+            final(self).contexts@.drop_last() =~= old(self).contexts@.drop_last(),
+            ctx_view(final(self).contexts@.last()) == ctx_view(old(self).contexts@.last()).push(Seq::<Seq<char>>::empty()),
+            final(self).contexts@.last().scope == old(self).contexts@.last().scope, final(self).contexts@.last().max_size == old(self).contexts@.last().max_size,
+    {
+//@BODY file=symbols.rs fn=enter_scope impl=SymbolTable sig="pub fn enter_scope(&mut self)" rules="R4"
+        proof {
+            let a = ctx_view(self.contexts@.last()); let b = ctx_view(old(self).contexts@.last()).push(Seq::<Seq<char>>::empty());
+            assert(a.len() == b.len());
+            assert forall|i: int| 0 <= i < a.len() implies a[i] =~= b[i] by {}
+            assert(a =~= b);
+        }
+    }
+
+    /// O09.4l  the end of a block closes exactly the innermost scope: the names declared in it are gone, everything
+    /// declared outside it is as before
+    pub fn leave_scope(&mut self)
+        requires old(self).contexts@.len() >= 1, ctx_view(old(self).contexts@.last()).len() >= 1
+        ensures
+            //@VACUITY
+            final(self).contexts@.len() == old(self).contexts@.len(),
+            final(self).contexts@.drop_last() =~= old(self).contexts@.drop_last(),
+            ctx_view(final(self).contexts@.last()) == ctx_view(old(self).contexts@.last()).drop_last(),
+            final(self).contexts@.last().scope == old(self).contexts@.last().scope, final(self).contexts@.last().max_size == old(self).contexts@.last().max_size,
+    {
+//@BODY file=symbols.rs fn=leave_scope impl=SymbolTable sig="pub fn leave_scope(&mut self)" rules="R4"
+        proof {
+            let a = ctx_view(self.contexts@.last()); let b = ctx_view(old(self).contexts@.last()).drop_last();
+            assert(a.len() == b.len());
+            assert forall|i: int| 0 <= i < a.len() implies a[i] =~= b[i] by {}
+            assert(a =~= b);
+        }
+    }
+
+    /// O17.sym  after a failed compilation: every function context and every block scope still open is forgotten;
+    /// what was declared in the outermost scope of the global context stays, with the same slots
+    pub fn reset_to_global(&mut self)
+        requires old(self).contexts@.len() >= 1, ctx_view(old(self).contexts@[0]).len() >= 1
+        ensures
+            //@VACUITY
+            final(self).contexts@.len() == 1,
+            ctx_view(final(self).contexts@[0]) =~= ctx_view(old(self).contexts@[0]).take(1),
+            final(self).contexts@[0].scope == old(self).contexts@[0].scope,
+    {
+//@BODY file=symbols.rs fn=reset_to_global impl=SymbolTable sig="pub fn reset_to_global(&mut self)" rules="R4"
+    }
+}
+
+/// O09.L5  what a name means at table level (current context, else - inside a function - the globals): a block
+/// (enter_scope, any declarations, leave_scope) restores the current context's view, so by the contracts of
+/// SymbolTable::resolve above every name resolves as before the block. Stated on views:
+pub proof fn lemma_table_block_roundtrip(before: Scopes, decls: Seq<Seq<char>>, name: Seq<char>)
+    requires before.len() >= 1
+    ensures slot_of(declare_all(before.push(Seq::<Seq<char>>::empty()), decls).drop_last(), name) == slot_of(before, name)
+{
+    lemma_declare_all_shape(before.push(Seq::<Seq<char>>::empty()), decls);
+    assert(before.push(Seq::<Seq<char>>::empty()).drop_last() =~= before);
+}
+pub open spec fn declare_all(v: Scopes, decls: Seq<Seq<char>>) -> Scopes decreases decls.len() {
+    if decls.len() == 0 { v } else { declare(declare_all(v, decls.drop_last()), decls.last()) }
+}
+pub proof fn lemma_declare_all_shape(v: Scopes, decls: Seq<Seq<char>>)
+    requires v.len() >= 1
+    ensures declare_all(v, decls).len() == v.len(), declare_all(v, decls).drop_last() =~= v.drop_last()
+    decreases decls.len()
+{
+    if decls.len() > 0 { lemma_declare_all_shape(v, decls.drop_last()); }
 }
 
 } // verus!
